@@ -57,6 +57,11 @@ def cases(tier, seed):
                                 continue
                             yield {"k": "style", "style": st, "mode": mode, "prefix": p, "year": y, "tpl": tpl, "target": target}
     for st in annot.styles():
+        for p in [None] + PREFIXES:
+            for only in ("copyright", "licence", "contributor", "copyright+contributor"):
+                for body in ("code", "empty"):
+                    yield {"k": "only", "style": st, "prefix": p, "only": only, "body": body}
+    for st in annot.styles():
         for mode in ("single", "multi"):
             for tail in hostile_tails(annot.styles()[st], mode):
                 yield {"k": "tail", "style": st, "mode": mode, "tail": tail}
@@ -237,6 +242,27 @@ def ev_tail(c) -> R:
     return r
 
 
+def ev_only(c) -> R:
+    """Only one kind of information requested (e.g. a bare '(c)'-style notice and nothing else)."""
+    r = R()
+    root = fresh_dir("c10")
+    materialise(root, {"file.unknownext": "plain body line\nsecond\n" if c["body"] == "code" else {"empty": True}})
+    argv = ["--style", c["style"], "--year", "2020"]
+    if "copyright" in c["only"]:
+        argv += ["--copyright", "Jane Doe"]
+    if c["only"] == "licence":
+        argv += ["--license", "MIT"]
+    if "contributor" in c["only"]:
+        argv += ["--contributor", "Kim"]
+    if c["prefix"]:
+        argv += ["--copyright-prefix", c["prefix"]]
+    res = twice(r, root, argv, [root / "file.unknownext"], f"--style {c['style']} only {c['only']} prefix {c['prefix']} body {c['body']}",
+                f"only|{c['only']}|prefix={c['prefix']}", n=3)
+    r.outcome = "n/a" if res is None else f"only-exit{res.exit_code}"
+    r.tags.append("only")
+    return r
+
+
 def ev_pair(c) -> R:
     r = R()
     root = fresh_dir("c10")
@@ -271,7 +297,7 @@ def ev_repeat(c) -> R:
     return r
 
 
-_EV = {"type": ev_type, "style": ev_style, "pair": ev_pair, "repeat": ev_repeat, "tail": ev_tail}
+_EV = {"type": ev_type, "style": ev_style, "pair": ev_pair, "repeat": ev_repeat, "tail": ev_tail, "only": ev_only}
 
 
 def evaluate(c) -> R:
